@@ -302,6 +302,26 @@ do_op(char *op)
 		evt("r nbsnd %d", rv);
 		return;
 	}
+	if (OP("xrcvt")) {
+		// auxiliary receive WITH a timeout ("xrcvt:<i>:<ms>"): an operation that is not a sleep and expires in the same
+		// batch as the aio under test - the expire thread calls its cancel function with the queue lock dropped
+		int i  = atoi(arg) % NAUX;
+		int ms = 0;
+		const char *c2 = strchr(arg, ':');
+		if (c2 != NULL) {
+			ms = atoi(c2 + 1);
+		}
+		if (aux[i] == NULL || aux_sub[i] != aux_cb[i]) {
+			evt("skip %s", name);
+			return;
+		}
+		aux_sub[i]++;
+		evt("c %s %d", name, i);
+		nng_aio_set_timeout(aux[i], ms);
+		nng_socket_recv(sock, aux[i]);
+		evt("r %s %d", name, i);
+		return;
+	}
 	if (OP("xrcv") || OP("xsnd")) {
 		int i = atoi(arg) % NAUX;
 		if (aux[i] == NULL || aux_sub[i] != aux_cb[i]) {
@@ -444,7 +464,15 @@ static void
 run_case(uint64_t seed, int policy, int doff, int dlen)
 {
 	me = "M";
-	nng_init(NULL);
+	{
+		// ONE expire thread: the aio under test and the auxiliary aios share an expire list, so that they can fall into
+		// the same pass of nni_aio_expire_loop (gen_batch)
+		nng_init_params ip;
+		memset(&ip, 0, sizeof(ip));
+		ip.num_expire_threads = 1;
+		ip.max_expire_threads = 1;
+		nng_init(&ip);
+	}
 	mock_register();
 	mock_reset();
 	set_policy(0);
